@@ -1094,7 +1094,17 @@ def matchPat : Nat → String → Pat → Value → Option (Bool × List (String
   | _ + 1, _, .bind x, v => some (true, [(x, v)])
   | _ + 1, selfTy, .path segs, v =>
     match v with
-    | .enumv p _ => some (decide (p = canon selfTy segs), [])
+    | .enumv p _ =>
+      -- [errors] BEGIN: a BARE identifier pattern `V` other than the prelude's `None` that is not literally the
+      -- value's path may be a variant brought into scope by `use E::*` (or a constant): no rule, instead of "no match"
+      match segs with
+      | [x] =>
+        (match x == "None" with
+         | true => some (decide (p = x), [])
+         | false => if p = x then some (true, []) else none)
+      | _ =>
+      -- [errors] END
+      some (decide (p = canon selfTy segs), [])
     | _ => none
   | _ + 1, _, .lit neg l, v =>
     match l, v with
@@ -1283,6 +1293,90 @@ def enumFromKeys (enums : List (String × List (String × Nat))) (fr : Frame) (s
     | some t => ["From<" ++ t ++ "> for " ++ canon fr.selfTy segs]
     | none => []
   | _ => []
+/-- membership in a list of names (by `==`, so that it evaluates on literals) -/
+def memStr (x : String) : List String → Bool
+  | [] => false
+  | y :: ys =>
+    match y == x with
+    | true => true
+    | false => memStr x ys
+
+/-- the names of the structs and enums of the generated tables, and `()` -/
+def tableTys (structs : List (String × List (String × String))) (enums : List (String × List (String × Nat))) : List String :=
+  structs.map (·.1) ++ enums.map (·.1) ++ ["()"]
+
+/-- `use E::*;` (also `self::` / `crate::` / `super::`) for an enum `E` of the tables, as a nested item of a block -/
+def useGlobEnum : List (String × List (String × Nat)) → String → Option String
+  | [], _ => none
+  | (t, _) :: rest, text =>
+    match ("use " ++ t ++ "::*;" == text) || ("use self::" ++ t ++ "::*;" == text) ||
+          ("use crate::" ++ t ++ "::*;" == text) || ("use super::" ++ t ++ "::*;" == text) with
+    | true => some t
+    | false => useGlobEnum rest text
+
+/-- a bare identifier `x` that is a field-less variant of an enum whose variants a `use E::*;` of an enclosing
+    block brought into scope (recorded in the environment under the name `{use}`, which is not an identifier) -/
+def globVariant (enums : List (String × List (String × Nat))) : List (String × Value) → String → Option Value
+  | [], _ => none
+  | (k, v) :: rest, x =>
+    match k == "{use}" with
+    | false => globVariant enums rest x
+    | true =>
+      match v with
+      | .str t =>
+        (match enumArity enums "" [t, x] with
+         | some 0 => some (.enumv (t ++ "::" ++ x) [])
+         | some _ => globVariant enums rest x
+         | none => globVariant enums rest x)
+      | _ => globVariant enums rest x
+
+def globPath (enums : List (String × List (String × Nat))) (env : List (String × Value)) : List String → Option Value
+  | [x] => globVariant enums env x
+  | _ => none
+
+/-- is `ret` the type `Result<T, E>` for a type `T` of the list? -/
+def retHasErr (ret E : String) : List String → Bool
+  | [] => false
+  | T :: ts =>
+    match "Result<" ++ T ++ "," ++ E ++ ">" == ret with
+    | true => true
+    | false => retHasErr ret E ts
+
+/-- the impl `From<X> for E` of the tables, for `E` the error type of the return type `ret = Result<T,E>` -/
+def tryFromDecl (tys : List String) (ret X : String) : List (String × FnDecl) → Option FnDecl
+  | [] => none
+  | (k, d) :: rest =>
+    match k == "From<" ++ X ++ "> for " ++ d.selfTy ++ "::from" with
+    | false => tryFromDecl tys ret X rest
+    | true =>
+      match retHasErr ret d.selfTy tys with
+      | true => some d
+      | false => tryFromDecl tys ret X rest
+
+/-- TYPE-DIRECTED conversions: an initialiser `x.into()` / `Default::default()` in a position whose declared
+    type `T` is a struct or enum of the tables is `T::from(x)` / `T::default()` (std: `impl<T, U: From<T>> Into<U> for T`;
+    the type checker picks the impl from the destination's type).  Everything else is left as it is. -/
+def typedInit (tys : List String) : Option String → Expr → Expr
+  | some T, .mcall x "into" [] =>
+    (match memStr T tys with
+     | true => .call [T, "from"] [x]
+     | false => .mcall x "into" [])
+  | some T, .call ["Default", "default"] [] =>
+    (match memStr T tys with
+     | true => .call [T, "default"] []
+     | false => .call ["Default", "default"] [])
+  | _, e => e
+
+def typedFields (tys : List String) : Option (List (String × String)) → List (String × Expr) → List (String × Expr)
+  | none, fs => fs
+  | some _, [] => []
+  | some decl, (k, e) :: rest => (k, typedInit tys (decl.lookup k) e) :: typedFields tys (some decl) rest
+
+/-- declared type of the field `f` of the struct that the value is -/
+def fieldTyOf (structs : List (String × List (String × String))) (f : String) : Option Value → Option String
+  | some (.struct sn _) => (structs.lookup sn).bind (·.lookup f)
+  | _ => none
+
 /-- a FUNCTION PATH (two or more segments: `T::f`, `m::f`) as the only argument of a method call -/
 def fnPathArg : List Expr → Option (List String)
   | [.path (a :: b :: segs)] => some (a :: b :: segs)
@@ -1427,7 +1521,13 @@ def eval : Nat → Ctx → Frame → Expr → St → Res
           | none =>
             match primPath (canon fr.selfTy segs) with
             | some v => .val v st
-            | none => orStuck "path without a rule" (ctx.ext.path (canon fr.selfTy segs)) fun v => .val v st
+            | none =>
+            -- [errors] BEGIN: the dictionary first (as before); then a bare variant in the scope of a `use E::*;` of
+            -- an enclosing block (`globPath` scans the environment, so it comes last)
+            match ctx.ext.path (canon fr.selfTy segs) with
+            | some v => .val v st
+            | none => orStuck "path without a rule" (globPath ctx.enums st.env segs) fun v => .val v st
+            -- [errors] END
     | .field e name => (eval n ctx fr e st).bind fun v st => runField ctx v name st
     | .tupleIdx e i =>
       (eval n ctx fr e st).bind fun v st =>
@@ -1607,6 +1707,15 @@ def eval : Nat → Ctx → Frame → Expr → St → Res
     | .binary op a b =>
       (eval n ctx fr a st).bind fun va st => (eval n ctx fr b st).bind fun vb st =>
         binOp op (litFallback ctx.ext.litFallback va vb).1 (litFallback ctx.ext.litFallback va vb).2 st
+    -- [errors] BEGIN: `place.f = x.into()` where `place` holds a struct of the tables whose field `f` has the
+    -- declared type `T`, a type of the tables: `T::from(x)` (see `typedInit`); otherwise the general rule
+    -- (the block around the right-hand side evaluates to the same value)
+    | .assign (.field base f) (.mcall x "into" []) =>
+      eval n ctx fr (.assign (.field base f)
+        (match typedInit (tableTys ctx.structs ctx.enums) (fieldTyOf ctx.structs f (readPlace n base st)) (.mcall x "into" []) with
+         | .mcall y "into" [] => .block [.expr (.mcall y "into" []) false]
+         | e => e)) st
+    -- [errors] END
     | .assign lhs rhs =>
       (eval n ctx fr rhs st).bind fun v st =>
         orStuck "assignment: literal does not fit the type of the place" (adoptTy (readPlace n lhs st) v) fun v' =>
@@ -1648,7 +1757,10 @@ def eval : Nat → Ctx → Frame → Expr → St → Res
         (some (.call [if lastSeg segs = "Self" then fr.selfTy else lastSeg segs, "default"] []))) st
     -- [errors] END
     | .structLit segs fields rest =>
-      (evalFields n ctx fr fields st).bind fun fv st =>
+      -- [errors] the initialisers `x.into()` / `Default::default()` of fields whose declared type is a type of the
+      -- tables are resolved by that type (`typedFields`); a struct that is not in the tables: nothing changes
+      (evalFields n ctx fr (typedFields (tableTys ctx.structs ctx.enums)
+          (ctx.structs.lookup (if lastSeg segs = "Self" then fr.selfTy else lastSeg segs)) fields) st).bind fun fv st =>
         match fv with
         | .struct _ fs =>
           let last := if lastSeg segs = "Self" then fr.selfTy else lastSeg segs
@@ -1676,7 +1788,22 @@ def eval : Nat → Ctx → Frame → Expr → St → Res
       (eval n ctx fr e st).bind fun v st =>
         match v with
         | .enumv "Ok" [x] => .val x st
-        | .enumv "Err" [x] => .ret (.enumv "Err" [(ctx.ext.errFrom fr.ret x).getD x]) st
+        | .enumv "Err" [x] =>
+          -- [errors] BEGIN: the dictionary may answer `ext "From::from" [str X]`: "the error is a value of the type `X`
+          -- of the tables; apply the `impl From<X> for E` of the translated files, `E` the error type of the enclosing
+          -- function's return type" (found by `tryFromDecl`; when there is none — `E` is `X` itself — the identity)
+          match ctx.ext.errFrom fr.ret x with
+          | some (.ext "From::from" [.str X]) =>
+            (match tryFromDecl (tableTys ctx.structs ctx.enums) fr.ret X ctx.fns with
+             | some d =>
+               (callDecl n ctx d .unit [x] st).bind fun rv st =>
+                 match rv with
+                 | .tuple [v, _] => .ret (.enumv "Err" [v]) st
+                 | _ => .stuck "internal: callDecl result"
+             | none => .ret (.enumv "Err" [x]) st)
+          | o =>
+          -- [errors] END
+          .ret (.enumv "Err" [o.getD x]) st
         | .enumv "Some" [x] => .val x st
         | .enumv "None" [] => .ret (.enumv "None" []) st
         | _ => .stuck "? on a value that is neither a Result nor an Option"
@@ -1814,7 +1941,12 @@ def evalBlock : Nat → Ctx → Frame → List Stmt → St → Res
         orStuck "const: value does not fit the declared type" (ascribe ty v) fun v' =>
           evalBlock n ctx fr rest { st' with env := (name, v') :: st.env }
     | .macro name _ => (runMacro ctx name [] st).bind fun _ st => evalBlock n ctx fr rest st
-    | .item _ => .stuck "nested item"
+    -- [errors] `use E::*;` for an enum `E` of the tables: no effect at run time; the variants of `E` are in scope
+    -- as bare identifiers in the rest of the block (recorded under the name `{use}`, see `globVariant`)
+    | .item text =>
+      match useGlobEnum ctx.enums text with
+      | some t => evalBlock n ctx fr rest { st with env := ("{use}", .str t) :: st.env }
+      | none => .stuck "nested item"
 
 /-- match arms, first match wins; a guard is evaluated with the bindings of its pattern -/
 def evalArms : Nat → Ctx → Frame → List Arm → Value → St → Res
